@@ -128,7 +128,9 @@ func TestC18(t *testing.T) {
 	a, base := newApp(t)
 	tr := newTracer(t, "c18.trace")
 	defer tr.close()
-	r := newRng(seed())
+	// consecutive seeds of the splitmix generator are the same stream shifted by one draw (they re-synchronise
+	// after a few cases): derive the stream from a hashed seed so that different VERIF_SEEDs are unrelated
+	r := newRng(newRng(seed()).next() ^ 0xC18)
 	g := c18Gen{r}
 	ncases := envInt("VERIF_CASES", 600)
 	only := envInt("VERIF_CASE", -1)
@@ -280,6 +282,9 @@ func TestC18(t *testing.T) {
 		}
 		hasData := !r.chance(8)
 		c18f1 := r.chance(4) // the regression case of C18-F1: mainnet-like parameters with UOptimal = 1
+		if ci == 0 { // every run replays the regression case first
+			kind, c18f1 = "R", true
+		}
 		var us []uint64
 		for i := 0; i < 4; i++ {
 			us = append(us, r.next()%1000000000000000001)
